@@ -163,6 +163,30 @@ def gen_cases(ctx):
     return [_norm(c) for c in cases]
 
 
+def _py_sweep_worker(args):
+    name, keys = args
+    out = []
+    for k in keys:
+        try:
+            msg = cc.oracle_entry({'kind': 'entry', 'db': name, 'key': k})
+        except Exception as e:  # noqa: BLE001
+            msg = f'oracle crashed: {type(e).__name__}: {e}'
+        if msg:
+            out.append((name, k, msg))
+    return out
+
+
+def python_sweep(processes=16, chunk=4000):
+    import multiprocessing
+    jobs = []
+    for name in ('aig', 'xaig'):
+        keys = list(cc.shipped(name))
+        jobs += [(name, keys[i:i + chunk]) for i in range(0, len(keys), chunk)]
+    with multiprocessing.get_context('fork').Pool(processes) as pool:
+        res = pool.map(_py_sweep_worker, jobs)
+    return [x for part in res for x in part]
+
+
 def correspondence(ctx, model_ok):
     r = CorrResult()
     r.rule = ('data: every record of both shipped files through the extracted check_entry (counts in notes), a seeded '
@@ -223,6 +247,16 @@ def correspondence(ctx, model_ok):
             if bad_keys:
                 sweep_ok = False
                 r.disagreements.append({'name': f'{name}: {len(bad_keys)} keys are not normalised tables, e.g. {bad_keys[:3]}'})
+        # the LIBRARY's own decoder on every record too (the extracted sweep above judges the data with the
+        # model's decoder): decode_circuit must return a well-formed circuit in the basis computing the key
+        t0 = time.time()
+        py_bad = python_sweep()
+        r.notes.append(f'python-side sweep of all records through decode_circuit: {len(py_bad)} failures in {time.time() - t0:.0f}s')
+        for name, key, msg in py_bad[:20]:
+            sweep_ok = False
+            case = {'kind': 'entry', 'db': name, 'key': key}
+            r._bad_entries.append(case)
+            r.disagreements.append({'name': f'shipped {name} entry {key}: {msg}', 'case': case})
         r.EXTRA_COVERAGE = {'exhaustive': sweep_ok, 'exhaustive_domain': 'all records of aig_db.bin.xz and xaig_db.bin.xz',
                             'swept_entries': total_checked}
         r.notes.append(f'EXTRA_COVERAGE exhaustive={sweep_ok} swept_entries={total_checked}')
